@@ -124,9 +124,13 @@ def run_case(item):
     tid, case = item
     obs, result, events, tables = record.execute(case)
     rec = record.abstract(case, obs, result, tables, tid)
-    if events and obs['raised'] == '' and workertrace.eligible(case):
+    if events and obs['raised'] == '' and (workertrace.eligible(case) or workertrace.eligible_ed(case)):
         try:
-            rec['_worker'] = workertrace.build(case, events, tables, tid)
+            if workertrace.eligible_ed(case):
+                w = workertrace.build_ed(case, events, tables, tid)
+                rec['_worker'] = None if w is None else (('ED',) + w[0], w[1])
+            else:
+                rec['_worker'] = workertrace.build(case, events, tables, tid)
         except Exception as exc:                     # hooks changed shape: implementation layer unavailable
             rec['_worker'] = ('error', '%s: %s' % (type(exc).__name__, exc))
     return rec
@@ -169,12 +173,16 @@ def validate_workers(workers, name):
             continue
         groups.setdefault(w[0], []).append(w[1])
     drift, states, validated = [], 0, 0
-    for (meas, mode, ae), recs in sorted(groups.items()):
+    for key, recs in sorted(groups.items(), key=lambda kv: str(kv[0])):
+        meas, mode, ae = key
         cfg_path = os.path.join(config.workdir('traces'), '%d-%s-%s-%s-%s.cfg' % (os.getpid(), name, meas, mode, ae))
         with open(cfg_path, 'w') as fh:
-            fh.write(workertrace.CFG % (meas, 'TRUE' if ae else 'FALSE', mode))
-        verd, st = runner.validate(recs, 'TraceWorkers', '%s-%s-%s-%s' % (name, meas, mode, ae), batch=1200,
-                                   cfg_path=cfg_path)
+            if meas == 'ED':
+                fh.write(workertrace.CFG_ED % (mode, 'TRUE' if ae else 'FALSE'))
+            else:
+                fh.write(workertrace.CFG % (meas, 'TRUE' if ae else 'FALSE', mode))
+        verd, st = runner.validate(recs, 'TraceWorkersED' if meas == 'ED' else 'TraceWorkers',
+                                   '%s-%s-%s-%s' % (name, meas, mode, ae), batch=1200, cfg_path=cfg_path)
         states += st['states']
         validated += len(recs)
         for tid, v in verd.items():
